@@ -281,6 +281,7 @@ func (m *Morass) Finalise() error {
 				m.chunk = nil
 				m.writers.Add(1)
 				m.write()
+				verifStep("finalise.wait", 0)
 				m.writers.Wait()
 				if err := m.err(); err != nil {
 					return err
